@@ -12,13 +12,17 @@ VARIABLES l, nbad, dirty, ms
 
 St0(ev) == [g |-> [n \in {ev.names[i] : i \in 1..Len(ev.names)} |-> Dead]]
 
-\* exit functions that are plain function pointers have no object life to count
+\* kinds: functor (guard owns a counting function object), fptr (plain function pointer: no object life to count),
+\* fref (guard holds an lvalue reference to a function object the harness owns)
 Judge(ev, s) ==
     IF ~Pre(ev.op, ev.g, ev.x, s) THEN <<"harness-pre">>
     ELSE LET ef == Eff(ev.op, ev.g, ev.x, s) IN
          (IF ev.inv = ef.inv THEN <<>> ELSE <<"invoked">>)
-         \o (IF ev.kind = "fptr" \/ ev.fl = FLive(ef.st, Len(ev.fl)) THEN <<>> ELSE <<"flive">>)
-         \o (IF ev.kind = "fptr" \/ (ev.cp = ef.cp /\ ev.mv = ef.mv) THEN <<>> ELSE <<"fcopy">>)
+         \o (IF ev.kind # "functor" \/ ev.fl = FLive(ef.st, Len(ev.fl)) THEN <<>> ELSE <<"flive">>)
+         \o (IF ev.kind = "functor" THEN (IF ev.cp = ef.cp /\ ev.mv = ef.mv THEN <<>> ELSE <<"fcopy">>)
+             \* a guard that holds its exit function by reference never copies or moves the function object
+             ELSE IF ev.kind = "fref" THEN (IF ev.cp = 0 /\ ev.mv = 0 THEN <<>> ELSE <<"fcopy">>)
+             ELSE <<>>)
 
 Expected(ev, s) == LET ef == Eff(ev.op, ev.g, ev.x, s) IN
                    ToJson([inv |-> ef.inv, fl |-> FLive(ef.st, Len(ev.fl)), cp |-> ef.cp, mv |-> ef.mv])
